@@ -512,6 +512,23 @@ def run(tier):
         c.finding("c01:scale:xml-attribute-entities:superlinear", "a %d-byte document with nested entity references in an attribute value takes %.0f ms and %d MB; the %d-byte one %.0f ms and %d MB (x%.1f time for %d more bytes)" % (
             ent[7][2], ent[7][0], ent[7][1] // 1024, ent[6][2], ent[6][0], ent[6][1] // 1024, ent[7][0] / max(ent[6][0], 1), ent[7][2] - ent[6][2]), {"levels": 7, "job": {"entry": "xml_buffer", "text": entity_doc(7)}})
     c.cov["growth_factor_for_4x_input"] = growth
+    # uninitialised reads: the sanitizer build does not see them; the LSC documents (what the reader keeps across chart elements) once more under valgrind's memcheck
+    import lsczoo, subprocess
+    exe = vf.build_harness("model_run", "plain")
+    vin, vout = os.path.join(c.run_dir, "valgrind.in.ndjson"), os.path.join(c.run_dir, "valgrind.out.ndjson")
+    vdocs = lsczoo.docs()
+    vf.write_ndjson(vin, [{"id": "v%d" % k, "entry": "xml_buffer", "text": x, "structure": False, "timeout": 120} for k, (i, x, e) in enumerate(vdocs)])
+    vp = subprocess.run(["valgrind", "-q", "--error-exitcode=9", exe, vin, vout], stdout=subprocess.PIPE, stderr=subprocess.STDOUT, text=True, errors="replace", timeout=1200)
+    vres = {r["id"]: r for r in vf.read_ndjson(vout)} if os.path.exists(vout) else {}
+    if len(vres) != len(vdocs):
+        raise vf.MachineryError("valgrind run lost documents: %d of %d (%s)" % (len(vres), len(vdocs), vp.stdout[-400:]))
+    for k, (i, x, e) in enumerate(vdocs):
+        r = vres["v%d" % k]
+        if crashed(r) or r.get("outcome") == "abnormal-exit":
+            c.finding("c01:memcheck:%s" % i, "valgrind's memcheck reports an error (or the process ends abnormally) while the LSC document `%s` is read: %s" % (i, (r.get("stderr") or "")[-300:].replace("\n", " | ")),
+                      {"kind": "memcheck", "doc": i, "xml": x, "stderr": (r.get("stderr") or "")[-2000:]})
+    c.cov["documents_under_memcheck"] = len(vdocs)
+    nlex += len(vdocs)
     # the scanner alone, below the grammar: every text up to a bound over mixed alphabets (Lex.tla: Total - no position without a rule under `nodefault` - and the
     # scan ends), scanned by the real scanner in the sanitizer build
     import lexconf
